@@ -159,10 +159,18 @@ def build_lib(san=True):
         return lib
     # keep the 6 most recently used library builds of this flavour
     if os.path.isdir(BUILD):
-        olds = sorted((n for n in os.listdir(BUILD) if n.startswith("lib-%s-" % tag)),
-                      key=lambda n: os.path.getmtime(os.path.join(BUILD, n)))
-        for n in olds[:-5]:
+        def _mt(n):
+            try:
+                return os.path.getmtime(os.path.join(BUILD, n))
+            except OSError:
+                return 0
+        names = [n for n in os.listdir(BUILD) if n.startswith("lib-%s-" % tag)]
+        olds = sorted((n for n in names if ".tmp" not in n), key=_mt)
+        for n in olds[:-8]:
             shutil.rmtree(os.path.join(BUILD, n), ignore_errors=True)
+        for n in names:     # builds in progress belong to other processes; only forget abandoned ones
+            if ".tmp" in n and time.time() - _mt(n) > 1800:
+                shutil.rmtree(os.path.join(BUILD, n), ignore_errors=True)
     d_final = d
     d = d + ".tmp%d" % os.getpid()
     os.makedirs(d, exist_ok=True)
@@ -480,7 +488,7 @@ def extract(prop_id, driver, extra_ml=(), prelude=()):
     vs = [os.path.join(COQ, f) for f in coq_files()] + [ev, os.path.join(VERIF, "ocaml", driver)] + \
          [os.path.join(VERIF, "ocaml", m) for m in list(extra_ml) + list(prelude)]
     h = file_hash(vs)
-    d = os.path.join(BUILD, "extract", prop_id)
+    d = os.path.join(BUILD, "extract", prop_id + _ALT)
     exe = os.path.join(d, "drv-" + h)
     if os.path.exists(exe):
         return exe
